@@ -648,6 +648,9 @@ func ReadRequest(b *bfe_bufio.Reader, maxUriBytes int) (req *Request, err error)
 	if !ok {
 		return nil, &badStringError{"malformed HTTP request", s}
 	}
+	if !validToken(req.Method) {
+		return nil, &badStringError{"invalid method", req.Method}
+	}
 	rawurl := req.RequestURI
 
 	if len(rawurl) > maxUriBytes {
